@@ -810,6 +810,10 @@ func NarrowLengthOps(fn *ssa.Function, root *RootInfo) []NarrowOp {
 				if x.Index == v {
 					return x, "index"
 				}
+			case *ssa.Call:
+				if x.Call.IsInvoke() && (x.Call.Method.Name() == "PrependBytes" || x.Call.Method.Name() == "AppendBytes") && len(x.Call.Args) == 1 && x.Call.Args[0] == v {
+					return x, "buffer request size"
+				}
 			case *ssa.BinOp:
 				switch x.Op {
 				case token.LSS, token.LEQ, token.GTR, token.GEQ:
